@@ -41,6 +41,7 @@ type (
 		Vars   []QVar
 		Body   Expr
 		Trig   []Expr
+		Alt    [][]Expr // further alternative trigger groups: forall x T {f(x)} {g(x)} :: body
 	}
 	EOld struct{ X Expr }
 	ELet struct {
@@ -308,6 +309,7 @@ func (p *parser) parseQuant() Expr {
 	k := p.next().text
 	var vars []QVar
 	var trig []Expr
+	var alt [][]Expr
 	for {
 		var names []string
 		names = append(names, p.next().text)
@@ -319,16 +321,23 @@ func (p *parser) parseQuant() Expr {
 		for _, n := range names {
 			vars = append(vars, QVar{n, ty})
 		}
-		if p.accept("{") {
-			// explicit instantiation triggers: forall x T {f(x), g(x)} :: body
+		for p.accept("{") {
+			// explicit instantiation triggers: forall x T {f(x), g(x)} :: body; several brace groups
+			// are alternatives (any one of them fires the instantiation)
+			var grp []Expr
 			for {
-				trig = append(trig, p.parseExpr(0))
+				grp = append(grp, p.parseExpr(0))
 				if p.accept("}") {
 					break
 				}
 				if !p.accept(",") {
 					panic("expected , or } in trigger list")
 				}
+			}
+			if trig == nil {
+				trig = grp
+			} else {
+				alt = append(alt, grp)
 			}
 		}
 		if p.accept("::") {
@@ -339,7 +348,7 @@ func (p *parser) parseQuant() Expr {
 		}
 	}
 	body := p.parseExpr(0)
-	return EQuant{k == "forall", vars, body, trig}
+	return EQuant{k == "forall", vars, body, trig, alt}
 }
 
 // parseTypeText reads a type: ident(.ident)? | []T | *T | map[K]V | set[T] | seq[T]
